@@ -185,10 +185,11 @@ DISTS = {
 SIZE_WINDOWS = (63, 64, 65, 66, 127, 128, 129, 130, 255, 256, 257, 258)
 
 
-def gen_big_sequence(rng):
+def gen_big_sequence(rng, k=None):
     """Object counts around 2^6, 2^7, 2^8 (index / distance types change
-    there), almost all objects distinct."""
-    k = int(rng.choice(SIZE_WINDOWS))
+    there), or the given count; almost all objects distinct."""
+    if k is None:
+        k = int(rng.choice(SIZE_WINDOWS))
     vals = [int(v) * 3 for v in rng.permutation(k)]
     for _ in range(int(rng.integers(0, 3))):      # a few zero-distance twins
         vals.append(vals[int(rng.integers(len(vals)))])
@@ -413,7 +414,15 @@ def run_shard(ctx, args):
                     f"{args['maxlen']}", "example": [[2, 0, 1], [0, 1, 2]]})
         return
     for it in range(args["n"]):
-        case = gen_big_sequence(rng) if it % 50 == 17 else gen_sequence(rng)
+        if it % 50 == 17:
+            case = gen_big_sequence(rng)
+        elif it % 25 == 3:
+            # EVERY object count from 12 to 140 in turn
+            case = gen_big_sequence(
+                rng, 12 + (it // 25 + 11 * ctx.shard_idx) % 129)
+            ctx.count("every_object_count_sequences")
+        else:
+            case = gen_sequence(rng)
         case["kind"] = "inst"
         inst = judge_instance(ctx, case)
         if it % 200 == 0 and inst is not None:
